@@ -563,6 +563,9 @@ func (e *FunctionCallExpr) ExecuteBatch(chunk []KVPair, ctx *ExecuteCtx) ([]any,
 	if !funcObj.VarArgs && len(e.Args) != funcObj.NumArgs {
 		return nil, NewExecuteError(e.GetPos(), "Function %s require %d arguments but got %d", funcObj.Name, funcObj.NumArgs, len(e.Args))
 	}
+	if funcObj.VarArgs && len(e.Args) < funcObj.NumArgs {
+		return nil, NewExecuteError(e.GetPos(), "Function %s require at least %d arguments but got %d", funcObj.Name, funcObj.NumArgs, len(e.Args))
+	}
 	return e.executeFuncBatch(funcObj, chunk, ctx)
 }
 
